@@ -30,8 +30,8 @@ using namespace cocls;
 
 #include "gen_script.h"
 
-template <bool A>
-static void emit(Ctx<A> &c, long st, Result r, const vh::alloc_mark &m) {
+template <typename C>
+static void emit(C &c, long st, Result r, const vh::alloc_mark &m) {
     long done = c.gen ? (c.gen->done() ? 1 : 0) : 2;
     if (c.gen && !c.outstanding && (bool)*c.gen == c.gen->done()) done = 9;  // operator bool must be !done()
     std::vector<long> v{st, r.kind, r.val, done, m.news(), m.dels(), c.cnt_report};
@@ -40,14 +40,14 @@ static void emit(Ctx<A> &c, long st, Result r, const vh::alloc_mark &m) {
     c.sink->nev = 0;
     vh::print_obs(v);
 }
-template <bool A>
-static void reject(Ctx<A> &c) {
+template <typename C>
+static void reject(C &c) {
     c.sink->nev = 0;
     vh::print_obs({1, 0, 0, 0, 0, 0, 0});
 }
 
-template <bool A>
-static void finish_access(Ctx<A> &c, bool settled, const vh::alloc_mark &m) {
+template <typename C>
+static void finish_access(C &c, bool settled, const vh::alloc_mark &m) {
     if (settled && c.res_ready) {
         c.outstanding = false;
         c.res_ready = false;
@@ -60,10 +60,10 @@ static void finish_access(Ctx<A> &c, bool settled, const vh::alloc_mark &m) {
     }
 }
 
-template <bool A>
+template <bool A, typename V = int>
 static void run_case(const vh::Case &cs, Worker &w, bool storage = false) {
     reusable_storage stor;   // engine gens: the frame lives here (must outlive the generator)
-    Ctx<A> c;
+    Ctx<A, V> c;
     for (auto &op : cs.ops) {
         Watchdog::inst().tick();
         if (op.empty()) { reject(c); continue; }
@@ -73,11 +73,16 @@ static void run_case(const vh::Case &cs, Worker &w, bool storage = false) {
                 c.created = true;
                 c.script.assign(op.begin() + 1, op.end());
                 vh::alloc_mark m;
-                if constexpr (!A) {
+                if constexpr (!std::is_same_v<V, int>) {
+                    vh::alloc_mark m2;
+                    c.gen.emplace(bodyt(&c, c.script.data(), (int)c.script.size()));
+                    emit(c, 0, Result{}, m2);
+                    break;
+                } else if constexpr (!A) {
                     if (storage) {
                         {   // warm-up: a first generator sizes the storage, so the measured one must reuse it
                             vh::t_count = false;
-                            Gen<A> warm(body0s(stor, &c, c.script.data(), (int)c.script.size()));
+                            generator<int> warm(body0s(stor, &c, c.script.data(), (int)c.script.size()));
                             vh::t_count = true;
                         }
                         vh::alloc_mark m2;
@@ -86,27 +91,34 @@ static void run_case(const vh::Case &cs, Worker &w, bool storage = false) {
                         break;
                     }
                 }
-                c.gen.emplace(body<A>(&c, c.script.data(), (int)c.script.size()));
+                if constexpr (std::is_same_v<V, int>) c.gen.emplace(body<A>(&c, c.script.data(), (int)c.script.size()));
                 emit(c, 0, Result{}, m);
                 break;
             }
             case 1: {
-                if (op.size() != 3 || !c.gen || c.outstanding || op[1] < 0 || op[1] > 6 || (A && op[1] == 1)) { reject(c); break; }
-                int style = (int)op[1];
+                // styles 10..16 = styles 0..6 executed from inside a running coroutine (resumption queue active)
+                bool in_coro = op.size() == 3 && op[1] >= 10 && op[1] <= 16;
+                long base = op.size() == 3 ? (in_coro ? op[1] - 10 : op[1]) : -1;
+                if (op.size() != 3 || !c.gen || c.outstanding || base < 0 || base > 6 || (A && base == 1)) { reject(c); break; }
+                int style = (int)base;
                 c.argv = (int)op[2];
                 c.res_ready = false;
                 vh::alloc_mark m;
                 if (style == 6) {
                     c.on_thread = false;
-                    c.sub_access();
+                    if (in_coro) coro_queue::install_queue_and_call([&] { c.sub_access(); });
+                    else c.sub_access();
                     finish_access(c, true, m);
                 } else if (style == 3 || style == 4) {
                     c.on_thread = false;
-                    c.async_access(style);
+                    if (in_coro) coro_queue::install_queue_and_call([&] { c.async_access(style); });
+                    else c.async_access(style);
                     finish_access(c, true, m);
                 } else {
                     c.on_thread = true;
-                    bool settled = w.run([&] { c.sync_access(style); });
+                    bool settled = in_coro
+                        ? w.run([&] { coro_queue::install_queue_and_call([&] { c.sync_access_in_coro(style); }); })
+                        : w.run([&] { c.sync_access(style); });
                     finish_access(c, settled, m);
                 }
                 break;
@@ -217,6 +229,7 @@ int main(int argc, char **argv) {
         std::fflush(stdout);
         if (cs.engine == "gen1") run_case<true>(cs, w);
         else if (cs.engine == "gens") run_case<false>(cs, w, true);
+        else if (cs.engine == "gent") run_case<false, MV>(cs, w);
         else run_case<false>(cs, w);
         std::printf("END\n");
         std::fflush(stdout);
